@@ -20,11 +20,21 @@ def c01_unsigned_fill(v, spec):
 
 @pred('C01-eval-scalar-masked')
 def c01_eval_scalar(v, spec):
-    # eval() whose expression reads a 0-d (scalar) masked variable: the
-    # expression result is a numpy scalar without variable attributes.
-    return (v['kind'] == 'in-domain-raise:eval:AttributeError' and
-            v.get('meta', {}).get('scalar_operand') is True and
-            '_ncattrs' in v.get('excmsg', ''))
+    # eval() whose expression reads a 0-d (scalar) variable: the expression
+    # result is a numpy scalar, not a variable.  Masked operand: the result
+    # has no _ncattrs and eval raises AttributeError.  Plain operand: the
+    # result is stored with the dimension tuple of an unrelated variable
+    # (the first name of the expression found in the file), so its shape ()
+    # disagrees with its dimensions.
+    if v.get('meta', {}).get('scalar_operand') is not True:
+        return False
+    if v['kind'] == 'in-domain-raise:eval:AttributeError':
+        return '_ncattrs' in v.get('excmsg', '')
+    if v['kind'] == 'malformed-result:eval':
+        pr = v.get('problems') or []
+        return bool(pr) and all('variable NEW(' in p and 'shape ()' in p
+                                for p in pr)
+    return False
 
 
 @pred('C03-integer-truncation')
@@ -169,3 +179,18 @@ def c19_long_code(v, spec):
         if len(str(abs(codes.get(name, 0)))) <= 7:
             return False
     return True
+
+
+@pred('C13-uamiv-read-long-steps')
+def c13_uamiv_long_steps(v, spec):
+    # uamiv.Read derives the number of time steps from the file header's
+    # start/end stamps with hour/HHMM heuristics (timediff with a unit picked
+    # from time_step % 2); for steps of 12 h or more the count comes out
+    # smaller than the number of steps in the file, the memory-map reader
+    # counts records and is right.
+    pr = v.get('problems') or []
+    return (v['kind'] == 'readers-disagree:uamiv' and
+            spec.get('dhour', 1) >= 12 and bool(pr) and
+            any('dimension TSTEP' in p for p in pr) and
+            all(('TSTEP' in p) or ('shape' in p) or ('TFLAG' in p)
+                for p in pr))
